@@ -39,7 +39,7 @@ DEVIATIONS = {
 
 def base_constants(**kw):
     c = dict(ALG='lru', MAXSIZE=2, PURGE=False, SAFE=False, QMULT=10, NX=4,
-             ARGS={1, 2, 3, 4}, OPS={'call'}, NARCH=0, DEPTH=8, Deviations=set(), Props=set(), UNKEYAT='keymap')
+             ARGS={1, 2, 3, 4}, OPS={'call'}, NARCH=0, DEPTH=8, Deviations=set(), Props=set(), UNKEYAT='keymap', MAXNEST=0)
     c.update(kw)
     return c
 
@@ -172,7 +172,7 @@ def _replay_one(job):
             real = (e['mem'][0], e['info'][0][:3], e['ret'], e['exc'])
             model = (p['mem'], p['stats'], p['ret'], p['exc'])
             if real != model:
-                drift = {'step': n + 1, 'op': ops[n], 'real': real, 'model': model}
+                drift = {'step': n + 1, 'op': {k: e[k] for k in ('op', 'a') if k in e}, 'real': real, 'model': model}
                 break
     t['meta']['drift'] = drift
     return t
@@ -435,9 +435,18 @@ ASSUME = [
 
 def plan_common(run, pid, algs, ops, args, narchs=(0, 1), purges=(False,), safes=(False,), maxsizes=(1, 2),
                 depth_q=6, depth_t=9, qmult_exh=2, sim_num=(24, 200), sim_depth=(30, 60), exh_depth=(5, 7),
-                exh_args=None, exh_ops=None):
+                exh_args=None, exh_ops=None, nest=True):
     thorough = run.tier == 'thorough'
     mcs = []
+    nested = []
+    if nest:
+        # re-entrancy (a memoized recursive function): two-phase calls, the wrapped function calls the decorated one again
+        for alg in algs:
+            for narch in sorted(set(narchs))[-1:] if not thorough else sorted(set(narchs)):
+                nested.append(base_constants(ALG=alg, MAXSIZE=2 if alg not in ('no', 'inf') else 2, PURGE=bool(narch) and (True in purges) and alg == 'lru',
+                                             SAFE=False, QMULT=qmult_exh, ARGS=set(list(args)[:4]) | ({8} & set(args)),
+                                             OPS={'call', 'nest'} | (set(ops) & {'clear'}), NARCH=narch, MAXNEST=3 if thorough else 2,
+                                             DEPTH=(depth_t if thorough else min(depth_q, 6)), Props={pid}))
     for alg in algs:
         for ms in (maxsizes if alg not in ('no', 'inf') else (2,)):
             for narch in narchs:
@@ -451,7 +460,10 @@ def plan_common(run, pid, algs, ops, args, narchs=(0, 1), purges=(False,), safes
         keep = mcs[:]
         run.rng.shuffle(keep)
         mcs = keep[:12]
-    run.model_checks(mcs)
+    if not thorough and len(nested) > 4:
+        run.rng.shuffle(nested)
+        nested = nested[:4]
+    run.model_checks(mcs + nested)
     # behaviours: simulation walks (QMULT = 10 as in the code), every algorithm x archive x maxsize ...
     gens = []
     for alg in algs:
@@ -463,6 +475,11 @@ def plan_common(run, pid, algs, ops, args, narchs=(0, 1), purges=(False,), safes
                                                ARGS=set(args) | ({run_unkey(4)} if safe else set()),
                                                OPS=set(ops), NARCH=narch,
                                                UNKEYAT='lookup' if safe and (len(gens) % 3 == 0) else 'keymap'))
+    if nest:
+        for alg in algs:
+            gens.append(base_constants(ALG=alg, MAXSIZE=run.rng.choice(list(maxsizes)), PURGE=False, SAFE=run.rng.choice(list(safes)), QMULT=10,
+                                       ARGS=set(args), OPS={'call', 'nest'} | (set(ops) & {'clear', 'dump', 'info'}),
+                                       NARCH=max(narchs), MAXNEST=3))
     num = sim_num[1] if thorough else sim_num[0]
     dep = sim_depth[1] if thorough else sim_depth[0]
     with ThreadPoolExecutor(max_workers=common.NCPU) as ex:
